@@ -14,7 +14,7 @@ from ..core import Check
 from .. import repo
 from ..writers import akai as aw, roland as rw
 
-TARGETS = [["root"], ["dir", 1], ["dir", 2], ["file", 1, 1], ["bad"]]
+TARGETS = [["root"], ["dir", 1], ["dir", 2], ["file", 1, 1], ["file", 2, 1], ["bad"]]
 
 
 def model(max_ops: int, rewind: bool = True, emit: bool = True):
@@ -24,7 +24,7 @@ def model(max_ops: int, rewind: bool = True, emit: bool = True):
 
 def images(work: str, seed: int) -> List[Dict[str, Any]]:
     out = []
-    a = naming.akai_dirs_case(["VOL A", "VOL B"])
+    a = naming.akai_dirs_case(["VOL A", "VOL B", "VOL A"])         # the third volume is a raw-name twin of the first (listed as 'VOL A (2)')
     from .c04 import loop_table
     a["parts"][0]["vols"][0]["files"][0]["hdr"] = {"loop_type": 1, "loops": loop_table([(40, 0, 10, 250), (30, 0, 5, 0), (20, 0, 7, 9999)])}
     a["parts"][0]["vols"][0]["files"].append({"name": "S9-L", "stem": "S9", "ftype": 243, "chain": [a["nsect"]], "cnt": 77, "ps": 0, "pe": 77,
@@ -45,7 +45,11 @@ def images(work: str, seed: int) -> List[Dict[str, Any]]:
     a["parts"].append(b["parts"][0])
     p = os.path.join(work, "akai.img")
     open(p, "wb").write(aw.build_image(a, seed))
-    out.append({"kind": "akai", "path": p, "map": {"root": "", "dir1": "A:/VOL A", "dir2": "B:/KICK-", "file": "A:/VOL A/S0", "bad": "A:/nope/x"}})
+    out.append({"kind": "akai", "path": p, "map": {"root": "", "dir1": "A:/VOL A", "dir2": "B:/KICK-", "file": "A:/VOL A/S0", "file2": "B:/KICK-/S0",
+                                                  "bad": "A:/nope/x"}})
+    # the same image addressed through its twin directories: a request inside one twin, then inside the other
+    out.append({"kind": "akai", "path": p, "map": {"root": "A:", "dir1": "A:/VOL A", "dir2": "A:/VOL A (2)", "file": "A:/VOL A/S0", "file2": "A:/VOL A (2)/S2",
+                                                  "bad": "A:/VOL A (3)"}})
     r = naming.roland_dirs_case(["Perf X", "Lead-"], "performance")
     r["img"]["samples"][0]["name"] = "Lead-"            # a sample of the FIRST performance named like the second performance
     # a sample used by BOTH performances, stored in a permuted three-cluster chain behind a leading-cluster offset: every
@@ -57,16 +61,17 @@ def images(work: str, seed: int) -> List[Dict[str, Any]]:
     r["img"]["partials"][1]["refs"] = [1, 2]
     p = os.path.join(work, "roland.img")
     open(p, "wb").write(rw.build_image(r, seed))
-    out.append({"kind": "roland", "path": p, "map": {"root": "", "dir1": "Vol", "dir2": "Vol/Lead-", "file": "Vol/Perf X/Lead-", "bad": "Vol/zz"}})
+    out.append({"kind": "roland", "path": p, "map": {"root": "", "dir1": "Vol", "dir2": "Vol/Lead-", "file": "Vol/Perf X/Lead-", "file2": "Vol/Lead-/Both", "bad": "Vol/zz"}})
     lines, binlen = naming.cue_lines(["One", "Two", "Three"])
     cpath, _ = cue.write_pair(os.path.join(work, "cd"), cue.render(lines, 0, seed), binlen + 6, seed)
-    out.append({"kind": "cdda", "path": cpath, "map": {"root": "", "dir1": "Two", "dir2": "Three", "file": "One", "bad": "Four"}})
+    out.append({"kind": "cdda", "path": cpath, "map": {"root": "", "dir1": "Two", "dir2": "Three", "file": "One", "file2": "Three", "bad": "Four"}})
     return out
 
 
 def op_path(img: dict, op: list) -> str:
     m = img["map"]
-    return {"root": m["root"], "dir": m["dir1"] if len(op) > 1 and op[1] == 1 else m["dir2"], "file": m["file"], "bad": m["bad"]}[op[0]]
+    return {"root": m["root"], "dir": m["dir1"] if len(op) > 1 and op[1] == 1 else m["dir2"],
+            "file": m["file"] if len(op) < 2 or op[1] == 1 else m["file2"], "bad": m["bad"]}[op[0]]
 
 
 def do_op(image_obj, img: dict, op: list, work: str, tag: str, trace_path=None) -> Any:
